@@ -24,7 +24,7 @@ BUILT = {
    "For generated token streams (pipeline tokens, own tokens with hints, and the same stream without whitespace tokens / reduced to word tokens so that occurrences can be directly adjacent; biased to ordinal+separator+digit shapes): spans inside the stream, increasing, disjoint, on word tokens, no flagged token inside; text is a well-formed numeral of the language; value bit-equal to its reading; ordinal flag <=> marker; the digits of a non-decimal occurrence equal the rendering of the digit builder exec_group returns for its words (exact digits beyond 2^53). One case in 25 is an English / German decimal of 35-56 dictated digits whose exact value is the midpoint between two adjacent doubles (optionally one digit longer / shorter), so a value computed from a shortened form shows. 4M quick / 40M thorough + libFuzzer (thorough).",
    "Marker sets per language are those the library emits today (listed in the evidence assumptions).", "§3 C06"),
  "C07": B("differential property-based testing (scanner vs validator)",
-   "For generated texts: each non-decimal occurrence's words validate to the same digits; every validated run of <= 6 words is seen by the scanner as exactly one number with those digits; at threshold 0 no uncovered, unflagged word validates alone; every raw segment between two ordinary words (punctuation included) that the validator accepts is seen by the un-annotated scanner as exactly that one number; clauses 1 and 3 also on own-token streams with separation / not-a-number hints. 2M quick / 25M thorough + libFuzzer (thorough).",
+   "For generated texts: each non-decimal occurrence's words validate to the same digits; every validated run of <= 6 words is seen by the scanner as exactly one number with those digits; at threshold 0 no uncovered, unflagged word validates alone; every raw segment between two ordinary words (punctuation included) that the validator accepts is seen by the un-annotated scanner as exactly that one number; clauses 1 and 3 also on own-token streams with separation / not-a-number hints and on the same streams reduced to their word tokens. 2M quick / 25M thorough + libFuzzer (thorough).",
    "Both sides are the library, as the property states; word extraction and run enumeration are ours.", "§3 C07"),
  "C08": B("exhaustive enumeration of all pairs below 100 + property-based variants, reverse-speller oracle; exact dictation oracle",
    "All 99x100x2 (a,b,joiner) per language with canonical spellings and every spelling variant of both sides for bare tens x b<20 are enumerated in every tier, random variants generated; each occurrence's covered words must be a standard spelling (reverse table of all variants of n < 1000) of its numeral and every word must be covered. Ordinal pairs with independent inflections are checked against a reverse table of all ordinal spellings (components that disagree in gender/number must not fuse); cardinal + ordinal pairs below 100 (all enumerated in two inflection choices) against the same table ('ten first' is not 11st). Dictation: all digit strings of length <= 4 enumerated, 5..8 generated (zero-run biased), exact expected grouping.",
